@@ -94,6 +94,16 @@ def exec_case(task, cd):
 
     stubs.SNAPSHOT = snapshot
     stubmain.RECORDER.log.clear()
+    import tempfile
+    import zlib
+    if zlib.crc32(files['c.case'].encode()) % 3 == 0:
+        # the directory for temporary files is reached through a symbolic link (as on some systems): the sandbox is
+        # the physical directory all the same, and act/ - by that name - is the current directory
+        link = os.path.join(cd.root, 'tmp-through-a-link')
+        if not os.path.lexists(link):
+            os.symlink(cd.tmp, link)
+        tempfile.tempdir = link
+        os.environ['TMPDIR'] = link
     try:
         r = inproc.run_main(argv, cd, main_program=stubmain.stub_main_program(), trace=True)
     finally:
